@@ -246,6 +246,7 @@ func WorkerMain(t *testing.T) {
 	tlsConfigs()
 	rlog = openRaceLog()
 	if rp := os.Getenv("VERIF_REPLAY"); rp != "" {
+		startWatchdog("") // a replayed run may stop the clock like the recorded one did
 		replayMain(t, p, rp)
 		return
 	}
@@ -322,16 +323,30 @@ func WorkerMain(t *testing.T) {
 				continue
 			}
 			reported[key]++
-			f := minimise(t, p, tape, tier, v, kid, known)
-			f.Seed, f.Run, f.Tier = seed, run, tier
-			f.Known = kid
-			if replayDir != "" {
-				name := fmt.Sprintf("%s-%s-s%d-r%d.json", propID, sanitizeName(v.Rule), seed, run)
-				f.File = filepath.Join(replayDir, name)
-				b, _ := json.MarshalIndent(f, "", " ")
-				os.WriteFile(f.File, b, 0o644)
+			// The violation goes on record as found before it is minimised: minimising runs
+			// the scenario again and again, and with a broken library one of those runs may
+			// stop the clock and take this process down.
+			save := func(f *Failure) {
+				f.Seed, f.Run, f.Tier = seed, run, tier
+				f.Known = kid
+				if replayDir != "" {
+					name := fmt.Sprintf("%s-%s-s%d-r%d.json", propID, sanitizeName(v.Rule), seed, run)
+					f.File = filepath.Join(replayDir, name)
+					b, _ := json.MarshalIndent(f, "", " ")
+					os.WriteFile(f.File, b, 0o644)
+				}
 			}
-			res.Failures = append(res.Failures, *f)
+			f0 := &Failure{Property: p.ID, Rule: v.Rule, Detail: v.Detail, Witness: v.Witness, Tape: append([]uint64{}, tape.Vals...), Over: mergeOver(tape.Over, nil),
+				Scenario: er.sc.Describe(), History: er.h.Render(), Digest: er.h.Digest()}
+			if v.Rule == "C20.race" {
+				f0.Digest = "race"
+			}
+			save(f0)
+			res.Failures = append(res.Failures, *f0)
+			at := len(res.Failures) - 1
+			f := minimise(t, p, tape, tier, v, kid, known)
+			save(f)
+			res.Failures[at] = *f
 		}
 	}
 
